@@ -25,6 +25,12 @@
 (*                 sampler's decision; trace state = sampler's if given   *)
 (*                 else parent's (empty without parent); recorded iff the *)
 (*                 decision is not DROP                                    *)
+(*  stack/live     "the span active on the calling thread": WithActiveSpan *)
+(*                 pushes a frame and creates a Scope; Scopes may be      *)
+(*                 destroyed in ANY order on ANY thread: unwinding down   *)
+(*                 to the scope's frame if it is on the caller's stack,   *)
+(*                 otherwise no effect (alive scopes keep their spans     *)
+(*                 active)                                                *)
 (*  End            exported: "yes" for RECORD_AND_SAMPLE, "no" for        *)
 (*                 dropped spans, "any" for RECORD_ONLY (statement silent)*)
 (* Ghosts: `ls` (how the last span was started), `actor`, `devUsed`.     *)
@@ -43,13 +49,18 @@ CONSTANTS NThr,       \* threads 1..NThr, each with its own active-span stack
           Dev,        \* set of deviation names the model may take
           Hist        \* BOOLEAN: record behaviours
 
-VARIABLES ents, stack, nid, ops, nrem, devUsed,
+VARIABLES ents,
+          stack,   \* per thread: sequence of frames [sc |-> scope id, e |-> entity] (WithActiveSpan pushes one)
+          live,    \* scope ids whose Scope object the application still holds (may be destroyed in ANY order,
+                   \* on ANY thread)
+          rm,      \* ghost (generation only): kinds of non-LIFO releases that happened
+          nid, ops, nrem, devUsed,
           actor,   \* ghost: thread of the last action (0: none)
           ls,      \* ghost: how the most recent span was started (mode, active parent, sampler answer)
           lastop, hist
 
-bvars == <<ents, stack, nid, ops, nrem, devUsed, actor, ls>>
-vars  == <<bvars, lastop, hist>>
+bvars == <<ents, stack, live, nid, ops, nrem, devUsed, actor, ls>>
+vars  == <<bvars, rm, lastop, hist>>
 
 Thr   == 1..NThr
 NoTS  == 9           \* "the sampler returned no trace state"
@@ -61,7 +72,7 @@ AllSamplers == {"on", "off", "pb_on", "pb_off", "r0", "r1", "rmid",
                 "c_RS_n", "c_RS_0", "c_RS_2"}
 
 Last(s) == s[Len(s)]
-Active(t) == IF stack[t] = <<>> THEN 0 ELSE Last(stack[t])
+Active(t) == IF stack[t] = <<>> THEN 0 ELSE Last(stack[t]).e
 ValidE(e) == e # 0 /\ ents[e].trace # 0 /\ ents[e].span # 0
 ActiveParent(t) == IF ValidE(Active(t)) THEN Active(t) ELSE 0
 PSampled(p) == p # 0 /\ ents[p].flags % 2 = 1
@@ -109,17 +120,17 @@ Outcomes(t, s, m, tc, ft, fs) ==
   \cup {[res |-> Result(p, s, tc, ft, fs, TRUE), p |-> p, dev |-> DevInherit] :
           p \in {q \in Parents(t, m) : PSampled(q) /\ Dec(s, q, tc) # "RS"}}
 
-CurOf(stk, es) == [t \in Thr |-> IF stk[t] = <<>> THEN 0 ELSE Last(stk[t])]
+CurOf(stk, es) == [t \in Thr |-> IF stk[t] = <<>> THEN 0 ELSE Last(stk[t]).e]
 Rec(r) == /\ hist' = IF Hist THEN Append(hist, r @@ [cur |-> CurOf(stack', ents')]) ELSE hist
 
 Init ==
-  /\ ents = <<>> /\ stack = [t \in Thr |-> <<>>] /\ nid = 1 /\ ops = 0 /\ nrem = 0
+  /\ ents = <<>> /\ stack = [t \in Thr |-> <<>>] /\ live = {} /\ rm = {} /\ nid = 1 /\ ops = 0 /\ nrem = 0
   /\ devUsed = {} /\ actor = 0 /\ ls = <<>> /\ lastop = <<>> /\ hist = <<>>
 
 (* ---- actions --------------------------------------------------------- *)
 MakeRemote(fl, ts, form, tc, ft, fs) ==
   /\ Len(ents) < MaxEnt /\ nrem < MaxRemote /\ ops < MaxOps
-  /\ UNCHANGED <<stack, devUsed, ls>>
+  /\ UNCHANGED <<stack, live, rm, devUsed, ls>>
   /\ ents' = Append(ents, [kind |-> "remote",
                            trace |-> IF form \in {"valid", "nospan"} THEN ft ELSE 0,
                            span  |-> IF form \in {"valid", "notrace"} THEN fs ELSE 0,
@@ -132,7 +143,7 @@ MakeRemote(fl, ts, form, tc, ft, fs) ==
 
 StartSpan(t, s, m, tc, ft, fs) ==
   /\ Len(ents) < MaxEnt /\ ops < MaxOps
-  /\ UNCHANGED <<stack, nrem>>
+  /\ UNCHANGED <<stack, live, rm, nrem>>
   /\ \E o \in Outcomes(t, s, m, tc, ft, fs) :
        /\ o.dev = "" \/ o.dev \in Dev
        /\ ents' = Append(ents, [kind |-> IF o.res.rec THEN "sdk" ELSE "noop",
@@ -150,23 +161,45 @@ StartSpan(t, s, m, tc, ft, fs) ==
   /\ nid' = nid + 2 /\ ops' = ops + 1 /\ actor' = t
   /\ lastop' = <<"start", t, s, m>>
 
-WithActive(t, e) ==
-  /\ e \in 1..Len(ents) /\ Len(stack[t]) < MaxDepth /\ ops < MaxOps
-  /\ UNCHANGED <<ents, nid, nrem, devUsed, ls>>
-  /\ stack' = [stack EXCEPT ![t] = Append(@, e)]
-  /\ ops' = ops + 1 /\ actor' = t /\ lastop' = <<"with", t, e>>
-  /\ Rec([op |-> "with", t |-> t, e |-> e])
+FrameIds == UNION {{stack[t][i].sc : i \in 1..Len(stack[t])} : t \in Thr}
+MaxLive  == NThr * MaxDepth
+\* model checking / generation name a new scope by the smallest unused id (canonical); the trace spec
+\* passes the recorder's own id
+NewScope == CHOOSE n \in 1..(2 * MaxLive + 1) : /\ n \notin live \cup FrameIds
+                                               /\ \A k \in 1..(n - 1) : k \in live \cup FrameIds
 
-ReleaseScope(t) ==
-  /\ stack[t] # <<>> /\ ops < MaxOps
+\* Tracer::WithActiveSpan(span) on thread t: a Scope object sc now exists, its frame is on top of t's stack
+WithActive(t, e, sc) ==
+  /\ e \in 1..Len(ents) /\ Len(stack[t]) < MaxDepth /\ Cardinality(live) < MaxLive /\ ops < MaxOps
+  /\ sc # 0 /\ sc \notin live \cup FrameIds
+  /\ UNCHANGED <<ents, nid, nrem, devUsed, ls, rm>>
+  /\ stack' = [stack EXCEPT ![t] = Append(@, [sc |-> sc, e |-> e])]
+  /\ live' = live \cup {sc}
+  /\ ops' = ops + 1 /\ actor' = t /\ lastop' = <<"with", t, e>>
+  /\ Rec([op |-> "with", t |-> t, e |-> e, sc |-> sc])
+
+\* Thread t destroys the Scope object sc - ANY live scope, in ANY order, created on ANY thread.
+\* If its frame is on t's stack, the stack is unwound down to and including that frame (everything attached
+\* above it goes too).  If its frame is not on t's stack (already unwound by an earlier out-of-order
+\* release, or attached on another thread) NOTHING changes: spans whose Scope is alive stay active.
+ReleaseScope(t, sc) ==
+  /\ sc \in live /\ ops < MaxOps
   /\ UNCHANGED <<ents, nid, nrem, devUsed, ls>>
-  /\ stack' = [stack EXCEPT ![t] = SubSeq(@, 1, Len(@) - 1)]
-  /\ ops' = ops + 1 /\ actor' = t /\ lastop' = <<"release", t>>
-  /\ Rec([op |-> "release", t |-> t])
+  /\ live' = live \ {sc}
+  /\ LET P == {i \in 1..Len(stack[t]) : stack[t][i].sc = sc} IN
+     /\ stack' = IF P = {} THEN stack
+                 ELSE [stack EXCEPT ![t] = SubSeq(@, 1, (CHOOSE i \in P : TRUE) - 1)]
+     /\ rm' = IF ~Hist THEN rm
+              ELSE rm \cup (IF P # {} /\ P # {Len(stack[t])} THEN {"ooo"} ELSE {})
+                      \cup (IF P = {} /\ stack[t] # <<>> THEN {"stale"} ELSE {})
+                      \cup (IF P = {} /\ stack[t] # <<>> /\ \E u \in Thr \ {t} : \E i \in 1..Len(stack[u]) : stack[u][i].sc = sc
+                           THEN {"cross"} ELSE {})
+  /\ ops' = ops + 1 /\ actor' = t /\ lastop' = <<"release", t, sc>>
+  /\ Rec([op |-> "release", t |-> t, sc |-> sc])
 
 EndSpan(t, e) ==
   /\ e \in 1..Len(ents) /\ ~ents[e].ended /\ ents[e].kind # "remote" /\ ops < MaxOps
-  /\ UNCHANGED <<stack, nid, nrem, devUsed, ls>>
+  /\ UNCHANGED <<stack, live, rm, nid, nrem, devUsed, ls>>
   /\ ents' = [ents EXCEPT ![e].ended = TRUE,
                           ![e].exported = IF ents[e].dec = "RS" THEN "yes"
                                           ELSE IF ents[e].dec = "RO" THEN "any" ELSE "no"]
@@ -180,15 +213,15 @@ DoRemote  == \E fl \in RemFlags, ts \in {0, 1}, form \in RemForms,
                 MakeRemote(fl, ts, form, tc, nid, nid + 1)
 DoStart   == \E t \in Thr, s \in Samplers, m \in Modes : \E tc \in TCs(t, s, m) :
                 StartSpan(t, s, m, tc, nid, nid + 1)
-DoWith    == \E t \in Thr, e \in 1..Len(ents) : WithActive(t, e)
-DoRelease == \E t \in Thr : ReleaseScope(t)
+DoWith    == \E t \in Thr, e \in 1..Len(ents) : WithActive(t, e, NewScope)
+DoRelease == \E t \in Thr, sc \in live : ReleaseScope(t, sc)
 DoEnd     == \E t \in Thr, e \in 1..Len(ents) : EndSpan(t, e)
 
 Next == DoRemote \/ DoStart \/ DoWith \/ DoRelease \/ DoEnd
 \* generation by random walks: TLC evaluates "invariants" on EVERY candidate successor, so the walk is
 \* closed by one deterministic step and only that step prints (EmitDone)
 Finish == /\ ops = MaxOps /\ lastop # <<"finish">> /\ lastop' = <<"finish">>
-          /\ UNCHANGED <<bvars, hist>>
+          /\ UNCHANGED <<bvars, rm, hist>>
 NextGen == Next \/ Finish
 Spec == Init /\ [][Next]_vars
 
@@ -230,8 +263,8 @@ PrecedenceA ==
        okE == m.e # 0 /\ ents[m.e].trace # 0 /\ ents[m.e].span # 0
        act == ls'.act
        n == ents'[Len(ents')] IN
-   /\ act = (IF actor' \in Thr /\ stack[actor'] # <<>> /\ ents[Last(stack[actor'])].trace # 0
-                                /\ ents[Last(stack[actor'])].span # 0 THEN Last(stack[actor']) ELSE 0)
+   /\ act = (IF actor' \in Thr /\ stack[actor'] # <<>> /\ ents[Last(stack[actor']).e].trace # 0
+                                /\ ents[Last(stack[actor']).e].span # 0 THEN Last(stack[actor']).e ELSE 0)
    /\ (m.type = "sc" /\ okE) => pp = m.e
    /\ (m.type = "ctx" /\ okE /\ ~m.root) => pp = m.e
    /\ (m.type = "ctx" /\ okE /\ m.root) => pp \in {m.e, 0}
@@ -253,13 +286,22 @@ DecisionA ==
 StartRules == [][PrecedenceA /\ TraceStateA /\ DecisionA]_vars
 \* a thread's stack changes only by that thread's own WithActiveSpan / scope release
 ThreadsIsolated == [][\A t \in Thr : stack'[t] # stack[t] => actor' = t]_vars
+\* a release never removes the frame of a scope that is still alive unless that frame lies above the released one
+ReleaseUnwindsOnlyAbove ==
+  [][\A t \in Thr : \A i \in 1..Len(stack[t]) :
+        (stack[t][i].sc \in live' /\ \A j \in 1..i : stack[t][j].sc \in live')
+           => (Len(stack'[t]) >= i /\ stack'[t][i] = stack[t][i])]_vars
+\* the stack discipline itself
+StackOK == /\ \A t \in Thr : \A i, j \in 1..Len(stack[t]) : i # j => stack[t][i].sc # stack[t][j].sc
+           /\ \A t, u \in Thr : t # u => \A i \in 1..Len(stack[t]) : \A j \in 1..Len(stack[u]) : stack[t][i].sc # stack[u][j].sc
+           /\ Cardinality(live) <= MaxLive
 
 (* ---- behaviour export ------------------------------------------------ *)
-View == <<ents, stack, nrem, devUsed, lastop>>
+View == <<ents, stack, live, nrem, devUsed, lastop>>
 \* ops/nid/actor are functions of the path, not of the abstract state: kept out of the fingerprint
-ViewState == <<ents, stack, nrem, devUsed>>
+ViewState == <<ents, stack, live, nrem, devUsed>>
 \* witness runs look at the ghosts: they must be part of the fingerprint there
-ViewW == <<ents, stack, nrem, devUsed, lastop, ls>>
+ViewW == <<ents, stack, live, nrem, devUsed, lastop, ls, rm>>
 EmitAll == (hist # <<>>) => PrintT(<<"BEH", ToJson(hist)>>)
 EmitDone == (lastop = <<"finish">>) => PrintT(<<"BEH", ToJson(hist)>>)
 LastE == ents[Len(ents)]
@@ -280,13 +322,19 @@ C_GrandChild == IsStart /\ ls.p # 0 /\ ents[ls.p].parent # 0 /\ ents[ls.p].kind 
 C_EndedParent == IsStart /\ ls.p # 0 /\ ents[ls.p].ended
 C_CrossThread == IsStart /\ NThr > 1 /\ ls.act # 0 /\ Active(2) # 0 /\ Active(1) # 0 /\ Active(1) # Active(2)
                    /\ lastop[2] = 2
+\* non-LIFO scope destruction, then a StartSpan with the implicit parent while an enclosing scope is alive
+C_OutOfOrderThenImplicit == IsStart /\ ls.m.type = "none" /\ ls.act # 0 /\ "ooo" \in rm
+C_StaleThenImplicit == IsStart /\ ls.m.type = "none" /\ ls.act # 0 /\ "stale" \in rm /\ "ooo" \in rm
+C_CrossReleaseThenImplicit == IsStart /\ ls.m.type = "none" /\ ls.act # 0 /\ "cross" \in rm
 WitNames == <<"Inherit", "InheritRO", "RootOverActive", "RootAndSpan", "ScOverActive", "CtxOverActive",
               "InvalidScFallsBack", "EmptyCtxFallsBack", "NoopParent", "SamplerTS", "ParentTS", "GrandChild",
-              "EndedParent", "CrossThread">>
+              "EndedParent", "CrossThread", "OutOfOrderThenImplicit", "StaleThenImplicit",
+              "CrossReleaseThenImplicit">>
 WitConds == <<C_Inherit, C_InheritRO, C_RootOverActive, C_RootAndSpan, C_ScOverActive, C_CtxOverActive,
               C_InvalidScFallsBack, C_EmptyCtxFallsBack, C_NoopParent, C_SamplerTS, C_ParentTS, C_GrandChild,
-              C_EndedParent, C_CrossThread>>
-\* one BFS run (workers = 1) prints a SHORTEST behaviour for every condition, once (TLC registers 1..14)
+              C_EndedParent, C_CrossThread, C_OutOfOrderThenImplicit, C_StaleThenImplicit,
+              C_CrossReleaseThenImplicit>>
+\* one BFS run (workers = 1) prints a SHORTEST behaviour for every condition, once (TLC registers 1..Len(WitNames))
 InitW == Init /\ \A i \in 1..Len(WitNames) : TLCSet(i, 0)
 WitAll == \A i \in 1..Len(WitNames) :
             (TLCGet(i) = 0 /\ WitConds[i]) =>
